@@ -13,6 +13,11 @@
 (*                     nested in table cells.                              *)
 (* Matcher = "depth" : the same pass counting element depth and reacting   *)
 (*                     only to direct children of w:body.                  *)
+(* Matcher = "skip"  : a pass that, instead of counting depth, skips the   *)
+(*                     subtree of every p / tbl it registers: equivalent   *)
+(*                     for cell content, but a p / tbl inside a block-     *)
+(*                     level wrapper (w:sdt, w:customXml) is registered    *)
+(*                     although the typed slices hold direct children only *)
 (*                                                                         *)
 (* Property Order: when the pass is finished the recovered element list is *)
 (* exactly the body, block by block.  TLC proves it for "depth" and        *)
@@ -32,20 +37,23 @@ ivars == <<doc, pos, out, i, pidx, tidx, elems>>
 \* the p / tbl start tags inside w:body in document order; depth 0 = child of body
 TagsOf(d, n) ==
     LET b == d.body[n] IN
-    IF b.k # "TBL" THEN << [tag |-> "p", depth |-> 0, blk |-> n] >>
-    ELSE << [tag |-> "tbl", depth |-> 0, blk |-> n] >>
+    IF b.k \in Brackets THEN <<>>
+    ELSE IF b.k # "TBL" THEN << [tag |-> "p", depth |-> WrapDepth(d.body, n), inblk |-> FALSE, blk |-> n] >>
+    ELSE << [tag |-> "tbl", depth |-> WrapDepth(d.body, n), inblk |-> FALSE, blk |-> n] >>
          \o FlattenSeq([r \in 1..b.tb.rows |-> FlattenSeq([c \in 1..b.tb.cols |->
                 LET g == Grid(b.tb)[r][c] IN
                 \* an anchor cell holds np paragraphs, a vMerge continuation cell one
                 \* empty paragraph, a position covered by gridSpan has no w:tc at all
                 [q \in 1..(IF g.kind = "a" THEN g.np ELSE IF g.kind = "vc" THEN 1 ELSE 0) |->
-                    [tag |-> "p", depth |-> 3, blk |-> n]]])])
+                    [tag |-> "p", depth |-> WrapDepth(d.body, n) + 3, inblk |-> TRUE, blk |-> n]]])])
 
 Stream(d) == FlattenSeq([n \in 1..Len(d.body) |-> TagsOf(d, n)])
 
 \* the typed slices of the first pass
-Paragraphs(d) == SelectSeq([n \in 1..Len(d.body) |-> n], LAMBDA n : d.body[n].k # "TBL")
-Tables(d)     == SelectSeq([n \in 1..Len(d.body) |-> n], LAMBDA n : d.body[n].k = "TBL")
+\* the typed slices of the first pass: direct children of w:body only
+Direct(d, n)  == d.body[n].k \notin Brackets /\ WrapDepth(d.body, n) = 0
+Paragraphs(d) == SelectSeq([n \in 1..Len(d.body) |-> n], LAMBDA n : Direct(d, n) /\ d.body[n].k # "TBL")
+Tables(d)     == SelectSeq([n \in 1..Len(d.body) |-> n], LAMBDA n : Direct(d, n) /\ d.body[n].k = "TBL")
 
 ImplInit == /\ doc \in Docs /\ doc.fmt = "docx" /\ pos = 0 /\ out = <<>>
             /\ i = 0 /\ pidx = 0 /\ tidx = 0 /\ elems = <<>>
@@ -54,7 +62,7 @@ StartTag ==
     /\ i < Len(Stream(doc))
     /\ i' = i + 1
     /\ LET ev == Stream(doc)[i + 1] IN
-       IF Matcher = "depth" /\ ev.depth > 0
+       IF (Matcher = "depth" /\ ev.depth > 0) \/ (Matcher = "skip" /\ ev.inblk)
        THEN UNCHANGED <<pidx, tidx, elems>>
        ELSE IF ev.tag = "p"
             THEN IF pidx < Len(Paragraphs(doc))
@@ -72,7 +80,9 @@ ImplSpec == ImplInit /\ [][StartTag]_ivars
 PassDone == i = Len(Stream(doc))
 
 \* the contract: the recovered order is the source order
-ImplOrder == PassDone => elems = [n \in 1..Len(doc.body) |-> n]
+\* (the ordinary body blocks - direct children - in source order, whatever wrappers stand
+\* between them; what is inside a wrapper is not recovered by a two-pass reader at all)
+ImplOrder == PassDone => elems = SelectSeq([n \in 1..Len(doc.body) |-> n], LAMBDA n : Direct(doc, n))
 
 \* weaker facts that hold for both matchers (sanity of the model itself)
 ImplSane == /\ pidx <= Len(Paragraphs(doc)) /\ tidx <= Len(Tables(doc))
